@@ -36,7 +36,7 @@ def run(tier, seed):
 
     def corrupt(cs):
         for x in cs:
-            if x["kind"] == "notification" and len(x["elems"]) == 2 and not x["chain_ok"] and x["elems"][0]["serial"] + 3 < x["elems"][1]["serial"]:
+            if x.get("op") == "doc" and x["kind"] == "notification" and len(x["elems"]) == 2 and not x["chain_ok"] and x["elems"][0]["serial"] + 3 < x["elems"][1]["serial"]:
                 y = dict(x)
                 y["chain_ok"] = True
                 return y
